@@ -578,6 +578,24 @@ func (v *Int) reduce() *Int {
 	if v.Lo == v.Hi && !v.Lin.IsConst() {
 		v.Lin = LinConst(v.W, v.Lo)
 	}
+	// identity through bit shuffling: if every bit is bit i of one atom A (and the
+	// rest are zero above A's range) the value is A itself
+	if len(v.Lin.T) == 1 && v.Lin.T[0].A.Deps != nil && v.W > 0 && v.Bits[0].K == BLit {
+		a := v.Bits[0].A
+		ok := a.W <= v.W || true
+		n := bitlen(a.Hi)
+		for i := 0; i < v.W && ok; i++ {
+			b := v.Bits[i]
+			if i < n {
+				ok = b.K == BLit && b.A == a && int(b.Idx) == i && !b.Neg
+			} else {
+				ok = b.K == BZero
+			}
+		}
+		if ok && a.Deps == nil {
+			v.Lin = LinAtom(v.W, a)
+		}
+	}
 	if c, ok := linConstVal(v.Lin); ok {
 		v.Lo, v.Hi = c, c
 		for i := 0; i < v.W; i++ {
